@@ -8,6 +8,9 @@ import (
 	"strings"
 	"time"
 
+	"github.com/elnosh/gonuts/cashu"
+
+	"verif/harness/bfs"
 	"verif/harness/dbwrap"
 	"verif/harness/lnmodel"
 	"verif/harness/mintops"
@@ -72,6 +75,11 @@ type c07Job struct {
 	Scn  string
 	K    int    // boundary call index before which the fault is injected; -1 = counting run
 	Mode string // crash | error
+	// generated scenarios (Scn == "gen"): reached state = Prep, interrupted operation = Op
+	Fee   uint     `json:",omitempty"`
+	Prep  []string `json:",omitempty"`
+	Op    string   `json:",omitempty"`
+	Final string   `json:",omitempty"`
 }
 
 type c07Res struct {
@@ -99,6 +107,9 @@ func c07Find(name string) *c07Scn {
 
 func c07Exec(j c07Job) (res c07Res) {
 	sc := c07Find(j.Scn)
+	if j.Scn == "gen" {
+		sc = &c07Scn{Name: "gen", Fee: j.Fee, Prep: j.Prep, Op: j.Op, Final: j.Final}
+	}
 	if sc == nil {
 		return c07Res{Err: "unknown scenario " + j.Scn}
 	}
@@ -214,7 +225,7 @@ func c07Exec(j c07Job) (res c07Res) {
 			if r := recover(); r != nil {
 				if _, ok := r.(crashSentinel); !ok {
 					remove()
-					res.V = append(res.V, rt.Violation{Property: "C07,C06", Key: fmt.Sprintf("%s/%s-before:%s/panic", c07Kind(sc.Name), j.Mode, res.Fault), What: fmt.Sprintf("operation %s panicked: %v", sc.Op, r)})
+					res.V = append(res.V, rt.Violation{Property: "C07,C06", Key: fmt.Sprintf("%s/%s-before:%s/panic", c07KindOfOp(w, sc.Op), j.Mode, res.Fault), What: fmt.Sprintf("operation %s panicked: %v", sc.Op, r)})
 					crashed = true
 				}
 			}
@@ -255,7 +266,11 @@ func c07Exec(j c07Job) (res c07Res) {
 	}
 	// violations raised by the interrupted / failed operation itself are not judged (the client got no answer or an error)
 	w.V = w.V[:vBefore]
-	where := fmt.Sprintf("%s/%s-before:%s", c07Kind(sc.Name), j.Mode, res.Fault)
+	kind := c07Kind(sc.Name)
+	if sc.Name == "gen" {
+		kind = c07KindOfOp(w, sc.Op)
+	}
+	where := fmt.Sprintf("%s/%s-before:%s", kind, j.Mode, res.Fault)
 	seenKeys := map[string]bool{}
 	tag := func(part string, from int) {
 		for _, v := range w.V[from:] {
@@ -455,12 +470,17 @@ func c07Exec(j c07Job) (res c07Res) {
 			}
 		}
 	}
-	// swap fees burnt (fee worlds): every accepted swap / melt burns ceil(ppk*n/1000); bound instead of exact
+	// fees: what completed swaps gave up is known exactly from their answers; the interrupted swap may or may not have
+	// taken effect, so its own fee is the only slack
 	feeSlack := int64(0)
-	if sc.Fee > 0 {
-		feeSlack = int64(w.Outcomes["swap:ok"]+w.Outcomes["melt:ok"]+2) * int64((sc.Fee+999)/1000) * 2
+	if f[0] == "swap" {
+		var ps cashu.Proofs
+		for _, i := range atoiList(f[1]) {
+			ps = append(ps, w.Proofs[i].P)
+		}
+		feeSlack = w.FeeFor(ps).Int64()
 	}
-	exp -= burnt
+	exp -= burnt + int64(w.SwapLoss)
 	// inputs locked by a payment that is still in flight at the backend are legitimately locked
 	var inflightLocked uint64
 	for _, p := range w.Proofs {
@@ -489,6 +509,35 @@ func c07Exec(j c07Job) (res c07Res) {
 		}
 	}
 	return res
+}
+
+// c07KindOfOp: the operation window class of an operation of the op language (same classes as c07Kind).
+func c07KindOfOp(w *mintops.W, op string) string {
+	f := strings.Split(op, "|")
+	switch f[0] {
+	case "mint":
+		return "MintTokens"
+	case "swap":
+		return "Swap"
+	case "melt":
+		if mi := atoiList(f[1])[0]; mi < len(w.Melts) && w.Melts[mi].Internal >= 0 {
+			return "MeltTokens-internal"
+		}
+		return "MeltTokens"
+	case "pollm":
+		return "GetMeltQuoteState"
+	case "check":
+		return "ProofsStateCheck"
+	case "pollq":
+		return "GetMintQuoteState"
+	case "mq":
+		return "RequestMintQuote"
+	case "meltq", "meltqi", "meltqm", "meltqh":
+		return "RequestMeltQuote"
+	case "rotrt":
+		return "RotateKeyset"
+	}
+	return f[0]
 }
 
 // c07Kind maps a scenario to the operation window class used in finding keys (scripts of the same operation share windows).
@@ -538,7 +587,223 @@ func atoiList(s string) []int {
 	return r
 }
 
+// ---- generated scenarios: every state reachable by a short history x every operation offered there ----
+
+func c07GenMenu(w *mintops.W) []string {
+	var ops []string
+	un := w.UnspentIdx(3)
+	if len(un) >= 1 {
+		ops = append(ops, fmt.Sprintf("swap|%d|exact", un[0]))
+	}
+	if len(un) >= 2 {
+		ops = append(ops, fmt.Sprintf("swap|%d,%d|exact", un[0], un[1]))
+	}
+	if len(w.Quotes) < 2 {
+		ops = append(ops, "mq|8")
+	}
+	for qi, q := range w.Quotes {
+		if qi == 0 {
+			continue
+		}
+		if q.Payments == 0 {
+			ops = append(ops, fmt.Sprintf("settle|%d", qi))
+		}
+		ops = append(ops, fmt.Sprintf("pollq|%d", qi), fmt.Sprintf("mint|%d|exact", qi))
+	}
+	if len(w.Melts) < 2 {
+		ops = append(ops, "meltq|4")
+		for qi, q := range w.Quotes {
+			if qi > 0 && q.Payments == 0 {
+				ops = append(ops, fmt.Sprintf("meltqi|%d", qi))
+			}
+		}
+	}
+	for j, m := range w.Melts {
+		if m.Internal >= 0 && w.Quotes[m.Internal].Payments > 0 {
+			// paying an invoice a second time is the payer's own loss (the internal path does not refuse it, see DESIGN
+			// §5.3), not value stranded by a fault: kept out of the accounting scenarios
+			continue
+		}
+		if m.Known == "" || m.Known == "failure" {
+			if len(un) >= 1 {
+				in := fmt.Sprint(un[0])
+				ops = append(ops, fmt.Sprintf("melt|%d|%s|S", j, in), fmt.Sprintf("melt|%d|%s|P", j, in), fmt.Sprintf("melt|%d|%s|F|N", j, in), fmt.Sprintf("melt|%d|%s|E|S", j, in))
+			}
+		}
+		if m.Known == "none" {
+			ins := ""
+			for k, n := range m.Inputs {
+				if k > 0 {
+					ins += ","
+				}
+				ins += fmt.Sprint(n)
+			}
+			ops = append(ops, fmt.Sprintf("pollm|%d|S", j), fmt.Sprintf("pollm|%d|F", j), fmt.Sprintf("check|%s|S", ins))
+		}
+	}
+	if len(w.Keysets) < 2 {
+		ops = append(ops, "rotrt|100")
+	}
+	return ops
+}
+
+var c07GenSpecs = map[string]*bfs.Spec{
+	"C07-gen-fee0":   {Prop: "C07", Name: "C07-gen-fee0", Cfg: mintops.Config{Fee: 0}, Init: []string{"fund|8,8,8"}, Menu: c07GenMenu, Depth: 9},
+	"C07-gen-fee100": {Prop: "C07", Name: "C07-gen-fee100", Cfg: mintops.Config{Fee: 100}, Init: []string{"fund|8,8,8"}, Menu: c07GenMenu, Depth: 9},
+}
+
+type c07State struct {
+	hist []string
+	next []string
+}
+
+// c07Enumerate lists the distinct states (canonical form) reachable by histories of at most depth operations, each
+// with its shortest history and the operations offered there.
+func c07Enumerate(c *rt.Ctx, spec string, depth int) []c07State {
+	seen := map[string]bool{}
+	var states []c07State
+	frontier := [][]string{{}}
+	for d := 0; d <= depth && len(frontier) > 0; d++ {
+		jobs := make([]any, len(frontier))
+		for i, h := range frontier {
+			jobs[i] = bfs.Job{Spec: spec, Hist: h}
+		}
+		results := make([]bfs.Res, len(frontier))
+		c.Pool.Map(jobs, func(i int, r rt.JobResult) {
+			if r.Died {
+				rt.HarnessError("C07 state enumeration %v died: %s", frontier[i], r.Stderr)
+			}
+			json.Unmarshal(r.Out, &results[i])
+			if results[i].Err != "" {
+				rt.HarnessError("C07 state enumeration %v: %s", frontier[i], results[i].Err)
+			}
+		})
+		var next [][]string
+		for i, r := range results {
+			if seen[r.Canon] {
+				continue
+			}
+			seen[r.Canon] = true
+			states = append(states, c07State{hist: frontier[i], next: r.Next})
+			for _, op := range r.Next {
+				next = append(next, append(append([]string{}, frontier[i]...), op))
+			}
+		}
+		frontier = next
+	}
+	return states
+}
+
+func c07Faultable(op string) bool {
+	switch strings.Split(op, "|")[0] {
+	case "settle", "fire", "restart", "info":
+		return false // not a request to the mint (backend event / harness action)
+	}
+	return true
+}
+
+func runC07Gen(c *rt.Ctx, spec string, depth int) {
+	sp := c07GenSpecs[spec]
+	states := c07Enumerate(c, spec, depth)
+	type cas struct {
+		prep  []string
+		op    string
+		final string
+	}
+	var cases []cas
+	for _, st := range states {
+		for _, op := range st.next {
+			if !c07Faultable(op) {
+				continue
+			}
+			prep := append(append([]string{}, sp.Init...), st.hist...)
+			finals := []string{""}
+			switch strings.Split(op, "|")[0] {
+			case "melt", "pollm", "check":
+				finals = []string{"S", "F"} // what the backend finally says about payments still in flight after the fault
+			}
+			for _, f := range finals {
+				cases = append(cases, cas{prep, op, f})
+			}
+		}
+	}
+	jobs := make([]any, len(cases))
+	for i, cs := range cases {
+		jobs[i] = c07Job{Scn: "gen", K: -1, Fee: sp.Cfg.Fee, Prep: cs.prep, Op: cs.op, Final: cs.final}
+	}
+	counts := make([][]string, len(cases))
+	c.Pool.Map(jobs, func(i int, r rt.JobResult) {
+		if r.Died {
+			rt.HarnessError("C07 counting run %v + %s died: %s", cases[i].prep, cases[i].op, r.Stderr)
+		}
+		var res c07Res
+		json.Unmarshal(r.Out, &res)
+		if res.Err != "" {
+			rt.HarnessError("C07 counting run %v + %s: %s", cases[i].prep, cases[i].op, res.Err)
+		}
+		counts[i] = res.Calls
+	})
+	var fj []c07Job
+	for i, cs := range cases {
+		for k := 0; k <= len(counts[i]); k++ {
+			fj = append(fj, c07Job{Scn: "gen", K: k, Mode: "crash", Fee: sp.Cfg.Fee, Prep: cs.prep, Op: cs.op, Final: cs.final})
+			if k < len(counts[i]) && strings.HasPrefix(counts[i][k], "db:") {
+				fj = append(fj, c07Job{Scn: "gen", K: k, Mode: "error", Fee: sp.Cfg.Fee, Prep: cs.prep, Op: cs.op, Final: cs.final})
+			}
+		}
+	}
+	evals := 0
+	const chunk = 4000
+	for from := 0; from < len(fj); from += chunk {
+		if c.Expired() {
+			c.Exhaustive = false
+			break
+		}
+		to := from + chunk
+		if to > len(fj) {
+			to = len(fj)
+		}
+		jobs = make([]any, to-from)
+		for i := range jobs {
+			jobs[i] = fj[from+i]
+		}
+		c.Pool.Map(jobs, func(i int, r rt.JobResult) {
+			j := fj[from+i]
+			if r.Died {
+				c.Violate(fmt.Sprintf("C07/%s/%s-at:%d/process-died", j.Op, j.Mode, j.K), "the worker process died: "+r.Stderr, j)
+				return
+			}
+			var res c07Res
+			json.Unmarshal(r.Out, &res)
+			if res.Err != "" {
+				rt.HarnessError("C07 %v + %s k=%d %s: %s", j.Prep, j.Op, j.K, j.Mode, res.Err)
+			}
+			if res.Skipped {
+				return
+			}
+			evals++
+			c.Count("evaluations", 1)
+			c.Distinct(fmt.Sprintf("%s|%v|%s|%s|%s|%s", spec, j.Prep, j.Op, j.Final, j.Mode, res.Fault))
+			for _, v := range res.V {
+				c.Violate("C07/"+v.Key, fmt.Sprintf("(after %v) %s", j.Prep[len(sp.Init):], v.What), j)
+			}
+		})
+	}
+	fmt.Printf("  generated %-16s depth %d states %d (state, operation, final answer) cases %d fault evaluations %d of %d\n", spec, depth, len(states), len(cases), evals, len(fj))
+	gen, _ := c.Cov["generated"].(map[string]any)
+	if gen == nil {
+		gen = map[string]any{}
+	}
+	gen[spec] = map[string]any{"prefix_depth": depth, "states": len(states), "cases": len(cases), "fault_positions": len(fj), "evaluated": evals}
+	c.Cov["generated"] = gen
+}
+
 func c07Worker(job json.RawMessage) (any, error) {
+	var probe struct{ Spec string }
+	json.Unmarshal(job, &probe)
+	if probe.Spec != "" {
+		return bfs.Worker(c07GenSpecs)(job)
+	}
 	var j c07Job
 	if err := json.Unmarshal(job, &j); err != nil {
 		return nil, err
@@ -610,6 +875,14 @@ func runC07(c *rt.Ctx) {
 			c.Sample(map[string]any{"scenario": scns[it.scn].Name, "operation": scns[it.scn].Op, "fault": it.mode + " before " + res.Fault, "boundary_calls": counts[it.scn], "accounting": res.Outcome})
 		}
 	})
+	// generated part: every state reachable by a history of <= L operations x every operation offered there
+	if c.Quick() {
+		runC07Gen(c, "C07-gen-fee0", 2)
+	} else {
+		runC07Gen(c, "C07-gen-fee100", 3)
+		runC07Gen(c, "C07-gen-fee0", 4)
+	}
+	c.Cov["rule_generated"] = "in addition the same fault enumeration is run from every distinct state reachable by a history of at most L operations (L = 2 quick; 4 at fee 0 and 3 at fee 100 thorough) over {swap of one / two proofs, mint quote, settle, poll quote, mint, melt quote (external, internal), melt x {Succeeded, Pending, Failed->NotFound, error->Succeeded}, poll x {Succeeded, Failed}, state check, runtime rotation}, for every operation offered in that state, every boundary call k of it, crash and storage error, and (for melts and resolutions) both final backend answers"
 	c.Cov["scenarios"] = perScn
 	c.Cov["distinct_accounting_outcomes"] = len(outcomes)
 	c.Cov["rule"] = "for each of the scenarios (operation x prepared state x Lightning script) a counting run lists the boundary calls (MintDB methods and Lightning calls made by the operation); then for every k = 0..n the operation is re-run from a freshly rebuilt state with a crash (sentinel panic, instance abandoned, LoadMint on the same directory) before call k (k = n: response lost) and, for MintDB calls, with an injected error returned from call k; afterwards: durability pass (model of everything answered before vs store), resync (polls, state checks, restore), adversarial follow-up (verbatim replay, re-spend of every input, mint every quote again, restart) under the transition oracles, and value accounting (client-held unspent value == Lightning inflow + internal settlements - inputs of really paid melts). A case is distinct by (scenario, mode, call)"
